@@ -177,7 +177,10 @@ def body_rotation(spec):
 
     def body(inp):
         n = inp.int("n", 0, 255)
-        d = inp.int("d", 0, 255)
+        # the five denominators hardware accepts are taken one by one as concrete values (code may index a table with them, which a
+        # symbolic int cannot do); every other denominator stays one symbolic value 5..255
+        dsel = inp.choice("d_case", 6)
+        d = dsel if dsel < 5 else inp.int("d", 5, 255)
         instr = cls(reg=Register(RegisterName.Q, 0), imm0=Immediate(n), imm1=Immediate(d))
         tr = NVSubroutineTranspiler.__new__(NVSubroutineTranspiler)
         site = {"axis": axis, "hardware": hardware}
